@@ -214,8 +214,24 @@ class Fn:
 
     @property
     def closures(self):
-        """All closures (transitively) defined in this function."""
-        return [f for f in self.prog.fns.values() if f.parent == self.defn and f is not self]
+        """All closures (transitively) defined in this function or closure."""
+        if self.kind != "Closure":
+            return [f for f in self.prog.fns.values() if f.parent == self.defn and f is not self]
+        out = []
+        fns = self.prog.fns
+        for f in fns.values():
+            if f.parent != self.parent or f is self:
+                continue
+            d = f.direct_parent
+            hops = 0
+            while d is not None and hops < 10:
+                if d == self.defn:
+                    out.append(f)
+                    break
+                g = fns.get(d)
+                d = g.direct_parent if g is not None else None
+                hops += 1
+        return out
 
     def with_closures(self):
         return [self] + self.closures
